@@ -109,6 +109,9 @@ func runCheck(args []string) {
 	}
 	e.tier = *tier
 	e.curProp = *prop
+	if !*writeBaseline {
+		e.loopSigs = loadLoopSigs(filepath.Join(*verif, "baseline", "loops.json"))
+	}
 	e.knownNames = map[string]bool{}
 	for _, k := range loadKnownFindings(filepath.Join(*verif, "known_findings.json")).Findings {
 		if k.Status == "known" && k.Property == *prop {
@@ -184,6 +187,14 @@ func (cr *checkRun) collect() {
 		}
 		if len(fn.Blocks) == 0 {
 			rep.Contract = "external (no body)"
+			cr.fns = append(cr.fns, rep)
+			continue
+		}
+		if c == nil && e.simpleScalarFn(fn, 0) {
+			// a scalar helper without contract is translated as a term at each call site, where its
+			// run-time-safety conditions are obligations in the caller's context (helperSafety);
+			// on its own, without the caller's facts, there is nothing to decide about it
+			rep.Contract = "inlined as a term at its call sites"
 			cr.fns = append(cr.fns, rep)
 			continue
 		}
@@ -447,6 +458,7 @@ func (cr *checkRun) report(verif, evPath string, seed int, t0 time.Time, writeBa
 		b, _ := json.MarshalIndent(baselineFile{cr.prop, names}, "", " ")
 		os.WriteFile(basePath, b, 0644)
 		fmt.Printf("baseline written: %s (%d obligations)\n", basePath, len(names))
+		e.saveLoopSigs(filepath.Join(verif, "baseline", "loops.json"))
 	}
 	// known findings
 	nViol := 0
